@@ -306,9 +306,87 @@ fn check_buffer(cx: &Ctx, st: &mut St, msgs: &[Msg], with_pending: bool) {
     }
 }
 
+/// (4) through `process`: "the handler a message selects never depends on any message sent
+/// before it".  Previous messages of every faulty kind (including ones whose '#' is *not* the
+/// start of a block), next messages with relative units around a payload that holds a newline.
+const PREV: &[&[u8]] = &[
+    b"Z\n", b"@\n", b"B 300\n", b"A:X\n", b"A:B;\n", b"A:A:A\n", b"Z 'x'\n", b"Z #31\n", b"Z #2\n", b"A:K #9\n", b"A:K #2+1x\n", b"B #H\n",
+];
+const NEXT: &[&[u8]] = &[
+    b"A:B;E\n",
+    b"A:B;S 'ab';E\n",
+    b"A:B;S 'a\nb';E\n",
+    b"A:A:A;A;:A:K #13x\ny;E\n",
+    b"A:E;N 5,\"\n\";B\n",
+    b"A:B;S 'a\n\n\nb';A:A\n",
+];
+
+fn proc_sizes(prev: &[u8], next: &[u8]) -> Vec<Vec<usize>> {
+    let total = prev.len() + next.len();
+    vec![vec![total], mc::env::regular(total, 1), vec![prev.len(), next.len()], mc::env::regular(total, 3), mc::env::regular(total, 7)]
+}
+
+fn check_process_pair(st: &mut St, n: usize, prev: &[u8], next: &[u8]) {
+    let (_, a) = mc::mainx::proc_obs(n, prev, &[prev.len()], Pattern::NONE);
+    let (_, b) = mc::mainx::proc_obs(n, next, &[next.len()], Pattern::NONE);
+    st.execs += 2;
+    let mut cat = a.clone();
+    cat.append(&b);
+    let mut s = prev.to_vec();
+    s.extend_from_slice(next);
+    st.buffers += 1;
+    for sizes in proc_sizes(prev, next) {
+        let (o, obs) = mc::mainx::proc_obs(n, &s, &sizes, Pattern::NONE);
+        st.execs += 1;
+        if o.end != End::Returned {
+            continue;
+        }
+        st.distinct.add(obs.calls.iter().flatten().fold(0xcbf29ce484222325u64, |h, &b| (h ^ b as u64).wrapping_mul(0x100000001b3)));
+        if obs != cat {
+            let feat = vec![
+                ("kind", "process-message-depends-on-the-message-before-it".to_string()),
+                ("handlers_differ", (obs.calls != cat.calls).to_string()),
+                ("previous_message_has_a_hash", prev.contains(&b'#').to_string()),
+            ];
+            st.groups.add("differential", &feat, (s.len() * 1000 + sizes.len(), &s), || {
+                (
+                    json!({"mode": "process", "n": n, "prev": hex(prev), "next": hex(next), "sizes": sizes}),
+                    format!(
+                        "process::<{n}>(\"{}\") read sizes {:?}: observed {} ; the two messages on their own give {}",
+                        show(&s),
+                        sizes,
+                        obs.show(),
+                        cat.show()
+                    ),
+                )
+            });
+        }
+    }
+}
+
 fn replay(path: &str) -> ! {
     let j: J = serde_json::from_str(&std::fs::read_to_string(path).unwrap()).unwrap();
     let w = &j["witness"];
+    if w["mode"].as_str() == Some("process") {
+        let n = w["n"].as_u64().unwrap() as usize;
+        let prev = unhex(w["prev"].as_str().unwrap());
+        let next = unhex(w["next"].as_str().unwrap());
+        let mut bad = [false; 2];
+        for r in 0..2 {
+            let mut st = St::default();
+            check_process_pair(&mut st, n, &prev, &next);
+            for g in st.groups.map.values() {
+                println!("round {r}: {}", g.1.desc);
+            }
+            bad[r] = st.groups.total() > 0;
+        }
+        if bad[0] != bad[1] {
+            println!("MACHINERY-ERROR replay is not deterministic");
+            std::process::exit(2);
+        }
+        println!("{}", if bad[0] { "REPRODUCED" } else { "NOT-REPRODUCED" });
+        std::process::exit(if bad[0] { 1 } else { 0 });
+    }
     let input = unhex(w["input"].as_str().unwrap());
     let pat = Pattern::from_json(&w["pattern"]);
     let oracle = j["features"]["oracle"].as_str().unwrap_or("");
@@ -439,6 +517,27 @@ fn main() {
             "histories": {"two_messages": na * na, "three_messages": hist3_parts * na * n1},
             "buffers": tot.buffers - before.0, "executions": tot.execs - before.1}));
     }
+    // (4) previous-message independence through process (Main tree)
+    let ns: &[usize] = if thorough { &[32, 47, 64, 128] } else { &[32, 64] };
+    let pairs: Vec<(usize, usize, usize)> =
+        ns.iter().flat_map(|&n| (0..PREV.len()).flat_map(move |i| (0..NEXT.len()).map(move |j| (n, i, j)))).collect();
+    let pairs_ref = &pairs;
+    let res = par::run_simple(pairs.len(), args.threads, args.seed, St::default, |st, p| {
+        let (n, i, j) = pairs_ref[p];
+        check_process_pair(st, n, PREV[i], NEXT[j]);
+    });
+    let before = (tot.buffers, tot.execs);
+    for s in res {
+        out.groups.merge(s.groups);
+        tot.buffers += s.buffers;
+        tot.execs += s.execs;
+        tot.distinct.merge(s.distinct);
+    }
+    let process_phase = json!({"previous_messages": PREV.iter().map(|m| show(m)).collect::<Vec<_>>(),
+        "next_messages": NEXT.iter().map(|m| show(m)).collect::<Vec<_>>(), "N": ns,
+        "chunkings": "one read, one byte per read, one message per read, 3 and 7 bytes per read",
+        "streams": tot.buffers - before.0, "executions": tot.execs - before.1,
+        "oracle": "observation of process on the two messages = observations of process on each alone, concatenated"});
     out.cov("states", tot.buffers);
     out.cov("transitions", tot.execs);
     out.cov("traces_validated_against_impl", tot.execs);
@@ -454,7 +553,7 @@ fn main() {
     );
     out.cov(
         "bounds",
-        json!({"trees": per_tree, "pending_deviation_bound": 2, "pending_runs": tot.pending_runs}),
+        json!({"trees": per_tree, "pending_deviation_bound": 2, "pending_runs": tot.pending_runs, "through_process": process_phase}),
     );
     out.cov(
         "non_vacuity",
